@@ -95,8 +95,15 @@ def concretise(d, env):
     return obj
 
 
+FALSY = ['', None, 0, False]
+
+
 def serialise(d, env, variant=0):
     if d['wf']:
+        if isinstance(d['stream_hash'], (list, tuple)) and len(d['stream_hash']) == 2 and d['stream_hash'][0] == 'falsy':        # the committed hash is present but falsy: "", null, 0, false
+            obj = concretise(dict(d, stream_hash=''), env)
+            obj['stream_hash'] = FALSY[(variant - 1) % 4]
+            return json.dumps(obj, sort_keys=True).encode()
         return json.dumps(concretise(d, env), sort_keys=True).encode()
     good = json.dumps(concretise(dict(d, wf=True), env), sort_keys=True).encode()
     if variant == 1:
